@@ -45,6 +45,11 @@ VALS = base.VALS
 GAPS = [0, 0, 1, 1, 2, 3, 5, 10]
 
 
+# scheduler= argument of a subscriber's subscribe() call: the subject's own one; ImmediateScheduler (wall clock); another virtual-time
+# scheduler that is never started, with its clock at 0 / far ahead of the history
+SUB_SCHEDS = ["own", "immediate", "other", "other", "other_ahead", "other_ahead"]
+
+
 def gen_case(rng, tier):
     big = tier == "thorough"
     nobs = rng.choice([1, 2, 2, 3, 3, 4, 4, 5])
@@ -94,6 +99,12 @@ def gen_case(rng, tier):
                                 else ["error", f"f{rng.randrange(2)}"] if r < 0.92 else ["unsub", rng.randrange(nobs)])
                 react.append([n, acts])
         observers.append({"err": err, "react": react})
+    if rng.random() < 0.35:
+        # some subscribers hand subscribe() a scheduler of their own (as time-based operators downstream do): the subject must keep
+        # measuring ages on ITS scheduler's clock and keep delivering through ITS scheduler
+        for o in observers:
+            if rng.random() < 0.5:
+                o["sched"] = rng.choice(SUB_SCHEDS)
     p_term = {"lateterm": 0.2, "handlerless": 0.1, "sametime": 0.01, "window": 0.03}.get(style, 0.05)
     p_disp = {"dispose": 0.12, "handlerless": 0.08, "sametime": 0.0, "window": 0.01}.get(style, 0.02)
     p_sub = {"window": 0.3, "sametime": 0.03}.get(style, 0.2)
@@ -183,6 +194,23 @@ class _Env(base._Env):
                     self.do(act)
             except Exception as e:  # noqa  the user's own try/except around each reaction action
                 self.xs.append([i, err_name(e)])
+
+    def sub_kwargs(self, i):
+        kind = self.case["observers"][i].get("sched")
+        if kind is None:
+            return {}
+        if kind == "own":
+            return {"scheduler": self.subject.scheduler}
+        if kind == "immediate":
+            from reactivex.scheduler import ImmediateScheduler
+            return {"scheduler": ImmediateScheduler()}
+        from reactivex.testing import TestScheduler
+        other = TestScheduler()
+        if kind == "other_ahead":
+            other.advance_to(1000000)
+        elif kind != "other":
+            raise ValueError(kind)
+        return {"scheduler": other}
 
     def do(self, act):
         if act[0] == "sub":
@@ -477,6 +505,12 @@ def shrink(case):
             c = dict(case)
             c["observers"] = [dict(x) for x in case["observers"]]
             c["observers"][i]["react"] = o["react"][:k] + o["react"][k + 1:]
+            yield c
+    for i, o in enumerate(case["observers"]):
+        if "sched" in o:
+            c = dict(case)
+            c["observers"] = [dict(x) for x in case["observers"]]
+            del c["observers"][i]["sched"]
             yield c
     if case["window"] is not None:
         c = dict(case); c["window"] = None; yield c
